@@ -349,7 +349,13 @@ pub fn snapshot(sys: &Sys, b: &Bounds, history: &[Step]) -> Snap {
     for (i, c) in conns.iter().enumerate() {
         let _ = write!(k, "C{}[l{} {:?} e{} k{}]", i, c.listener, c.phase, c.eof as u8, c.calls);
     }
-    let _ = write!(k, "S[f{} d{:?}]M{:?}", w.server_flag_set() as u8, w.server_done.get(), cmds);
+    let signals: Vec<i32> = w.log.borrow().iter().filter_map(|(_, _, r)| if let Rec::SignalSent(n) = r { Some(*n) } else { None }).collect();
+    // where the server task is inside its Stop handling: has it joined the accept loop, and how much of
+    // the 300 ms it sleeps before a requested system stop is left
+    let join_ms: Option<u64> = w.log.borrow().iter().zip(w.log_ms.borrow().iter()).find_map(|((_, _, r), ms)| if matches!(r, Rec::AcceptJoin { .. }) { Some(*ms) } else { None });
+    let now_ms = w.start.get().map_or(0, |s| now.duration_since(s).as_millis() as u64);
+    let exit_sleep_left = join_ms.map(|j| (j + 300).saturating_sub(now_ms));
+    let _ = write!(k, "S[f{} d{:?} j{:?}]M{:?}G{:?}", w.server_flag_set() as u8, w.server_done.get(), exit_sleep_left, cmds, signals);
     let _ = write!(k, "U[{} {} {} {} {} {} {}]", u.connects, u.cmds, u.advances, u.injects, u.mode_changes, u.kills, u.drop_stops);
     let mut h = std::collections::hash_map::DefaultHasher::new();
     k.hash(&mut h);
@@ -491,6 +497,7 @@ pub struct Stats {
     pub shortest: Option<Vec<Step>>,
     pub longest: Option<Vec<Step>>,
     pub distinct_dispatch_logs: u64,
+    pub key_checks: u64,
 }
 
 pub trait Spec: Sync {
@@ -524,7 +531,35 @@ struct Outcome {
     nested: bool,
 }
 
+/// Key self-test (DESIGN §14): two histories with the same key must have the same successors.
+/// Returns a description of the first difference.
+fn key_differential(cfg: &Config, b: &Bounds, h1: &[Step], h2: &[Step], enabled: &[Ev]) -> Option<String> {
+    for ev in enabled {
+        let mut a = h1.to_vec();
+        a.push((*ev, None));
+        let mut c = h2.to_vec();
+        c.push((*ev, None));
+        let (sa, sc) = (run(cfg, b, &a), run(cfg, b, &c));
+        // budgets used are part of the key and may legitimately differ only if the histories differ in them
+        if sa.key != sc.key {
+            return Some(format!(
+                "same key, different successor under {:?}:\n  history A {}\n  history B {}\n  successor A {}\n  successor B {}",
+                ev,
+                history_json(h1),
+                history_json(h2),
+                sa.key_text,
+                sc.key_text
+            ));
+        }
+    }
+    None
+}
+
 pub fn bfs(spec: &dyn Spec, threads: usize, seed: u64, wall_cap: Duration) -> (Stats, Vec<Found>, Vec<String>) {
+    bfs_opt(spec, threads, seed, wall_cap, 0)
+}
+
+pub fn bfs_opt(spec: &dyn Spec, threads: usize, seed: u64, wall_cap: Duration, keycheck_every: u64) -> (Stats, Vec<Found>, Vec<String>) {
     let cfg = spec.config();
     let b = spec.bounds();
     let start = Instant::now();
@@ -533,6 +568,8 @@ pub fn bfs(spec: &dyn Spec, threads: usize, seed: u64, wall_cap: Duration) -> (S
     let mut found_sigs: HashSet<String> = HashSet::new();
     let mut machinery: Vec<String> = vec![];
     let mut seen: HashSet<u64> = HashSet::new();
+    let mut first_history: std::collections::HashMap<u64, Vec<Step>> = std::collections::HashMap::new();
+    let mut duplicates = 0u64;
     let mut dispatch_logs: HashSet<u64> = HashSet::new();
 
     let mut dump = std::env::var("VERIF_DUMP_KEYS").ok().and_then(|p| std::fs::OpenOptions::new().create(true).append(true).open(p).ok());
@@ -610,6 +647,19 @@ pub fn bfs(spec: &dyn Spec, threads: usize, seed: u64, wall_cap: Duration) -> (S
                 for (sig, msg) in vios {
                     if found_sigs.insert(sig.clone()) {
                         found.push(Found { signature: sig, message: msg, history: o.history.clone(), key_text: o.snap.key_text.clone() });
+                    }
+                }
+                if keycheck_every > 0 && !o.nested {
+                    if let Some(h1) = first_history.get(&o.snap.key) {
+                        duplicates += 1;
+                        if duplicates % keycheck_every == 0 && *h1 != o.history && machinery.is_empty() {
+                            stats.key_checks += 1;
+                            if let Some(d) = key_differential(&cfg, &b, h1, &o.history, &o.snap.enabled) {
+                                machinery.push(format!("state key is too coarse: {d}"));
+                            }
+                        }
+                    } else {
+                        first_history.insert(o.snap.key, o.history.clone());
                     }
                 }
                 if seen.insert(o.snap.key) {
